@@ -68,6 +68,27 @@ def scenario(rng):
     return scn
 
 
+def cancel_scenario(rng):
+    """An async machine whose EXPLICIT activation is cut short by a cancellation (a BaseException) inside an enter callback
+    of the initial state: the activation is over all the same - activating again, or sending events, never re-enters."""
+    scn = scenario(rng)
+    d = scn["classes"][0]
+    for cb in d["cbs"]:
+        cb["coro"] = True if cb.get("style") not in ("property", "event") and not cb.get("evcb") else cb["coro"]
+        cb["yields"] = 0
+    new = scn["steps"][0]
+    new["stored"], new["stored_alias"] = "", False
+    new["opt"].update(rtc=True, start="")
+    rest = [st for st in scn["steps"][1:] if st["op"] == "call"]
+    scn["steps"] = [new, {"op": "call", "i": 1, "api": "activate", "gv": gen.rand_gv(rng)},
+                    {"op": "call", "i": 1, "api": "activate", "gv": gen.rand_gv(rng)}] + rest
+    scn["script"] = {}
+    scn["failAt"] = [rng.choice([1, 1, 2])]
+    scn["cancel_activation"] = True
+    scn["driver"] = rng.choice(["sync", "inloop"])
+    return scn
+
+
 def featurize(scn, res, v):
     lines = res["lines"]
     k = v["matched"]
@@ -102,6 +123,8 @@ def run(pid, tier, seed, replay):
     ec.run_validate(chk, hs, "activation: spec-behaviour replay", shards=4 if quick else 12, featurize=featurize)
     ec.run_validate(chk, [scenario(rng) for _ in range(1500 if quick else 25000)], "activation: random histories",
                     shards=4 if quick else 12, featurize=featurize)
+    ec.run_validate(chk, [cancel_scenario(rng) for _ in range(300 if quick else 4000)], "activation cut short by a cancellation",
+                    shards=3 if quick else 10, featurize=featurize)
     chk.coverage["rule"] = ("family: <=3 states, stored in {none, s0, s1}, start_value in {none, last state}, rtc x allow, up to 2 "
                             "re-activations / restarts / outside writes and 1 event; random: construction over every state, "
                             "re-activation, restart after random histories, async before/after explicit activation")
